@@ -400,7 +400,7 @@ viol_apply(int v, const JobSpec &s, IMB_JOB *j, std::vector<int> &e)
         case V_TAG_LEN: {
                 uint64_t nl = 0;
                 switch (h) {
-                case IMB_AUTH_AES_CCM: nl = (s.seed & 1) ? 5 : 18; break;
+                case IMB_AUTH_AES_CCM: nl = (s.seed & 1) ? 5 : (s.seed & 2) ? 18 : 2; break; // odd, above 16, below 4
                 case IMB_AUTH_SM3:
                 case IMB_AUTH_HMAC_SM3: nl = (s.seed & 1) ? 0 : 33; break;
                 case IMB_AUTH_ZUC256_EIA3_BITLEN: nl = 12; break;
@@ -479,7 +479,11 @@ viol_apply(int v, const JobSpec &s, IMB_JOB *j, std::vector<int> &e)
                 }
                 break;
         case V_NULL_AAD: j->u.GCM.aad = nullptr; e = { IMB_ERR_JOB_NULL_AAD }; break;
-        case V_CCM_AAD_LEN: j->u.CCM.aad_len_in_bytes = 47 + (s.seed % 100); e = { IMB_ERR_JOB_AAD_LEN }; break;
+        case V_CCM_AAD_LEN:
+                // the limit is 46 (three AES blocks minus the two length bytes): mostly the first values above it
+                j->u.CCM.aad_len_in_bytes = (s.seed & 1) ? 47 : (s.seed & 2) ? 48 : 49 + ((s.seed >> 2) % 100);
+                e = { IMB_ERR_JOB_AAD_LEN };
+                break;
         case V_AEAD_CIPHER_WITH_OTHER_HASH:
                 // keep every pointer the new hash needs valid: plain SHA-1 needs src + tag only
                 j->hash_alg = IMB_AUTH_SHA_1;
